@@ -19,7 +19,9 @@ RULE = (
     "proposal and its correction, user Gibbs (conjugate), tau2 Gibbs, finite-discrete Gibbs} and sequences over "
     "disjoint blocks, on dict models (normal-normal, normal with unknown mean and log-scale, logistic and Poisson "
     "regression) and Liesel graph models (regression with Exp-transformed inverse-gamma variance, full-rank "
-    "penalised smooth with tau2, finite-discrete mixture); thousands of independent chains per configuration, "
+    "penalised smooth with tau2, finite-discrete mixture, a Uniform(0, upper) variable under its parameter-dependent "
+    "default bijector with `upper` sampled too); two independent blocks with kernels of the same type (cross-moment "
+    "statistics); a variance sampled on its original scale (NaN density outside the support); thousands of independent chains per configuration, "
     "T in {1,5,20} fixed-tuning transitions (burn-in epoch), per-chain data. Two-stage rule on paired z and KS "
     "statistics. non-trivial = configuration whose chains actually moved (move rate > 0.05 and mean |theta_T - "
     "theta_0| > 0.1 prior sd); distinct by configuration name x T"
